@@ -188,6 +188,16 @@ inline Rational ratFromString(const char* desc)
       /* case 1: string is given in nom/den format */
       if(s.find_first_of(".Ee") == std::string::npos)
       {
+         // GMP accepts "p/0" and "p/-q" and stores a non-canonical rational that later arithmetic cannot handle
+         size_t slash = s.find('/');
+
+         if(slash != std::string::npos
+               && s.find_first_of("123456789", slash + 1) == std::string::npos)
+            throw std::invalid_argument("rational literal with zero denominator");
+
+         if(slash != std::string::npos && s.find('-', slash + 1) != std::string::npos)
+            throw std::invalid_argument("rational literal with negative denominator");
+
          if(s[0] == '+')
             res = Rational(desc + 1);
          else
